@@ -132,11 +132,15 @@ def run(ctx):
             st = AttrState(prog, ci)
             s = st.summary(init)
             bad = {a: v for a, v in s.exposed.items() if not a.startswith("__") and not st.is_class_attr(a)}
-            if bad:
+            if "*" in s.kills:
+                o.undecided(f"{cn}: the constructor chain binds attributes by computed name (setattr); which reads stay unbound is not decided", init)
+            elif bad:
                 for a, sites in bad.items():
                     f2, nd = sites[0]
                     o.violated(f2, nd, f"{cn}: `self.{a}` is read here but never assigned on the path from {cn}.__init__ (AttributeError on construction)")
             missing = {"_jdd", "_motif_sizes"} - s.must
+            if "*" in s.kills:
+                continue
             if missing and not bad:
                 o.violated(init, init.node, f"{cn}: after construction {sorted(missing)} may be unassigned; sample_jds_from_jdd / handshaking_lemma read them")
             if not bad and not missing:
@@ -225,7 +229,19 @@ def run(ctx):
             o.holds(cd, calls[-1], "normalise_jdd() runs after all weights are stored")
         else:
             o.violated(cd, calls[-1], "normalise_jdd() runs before the weights are stored")
-        conform_attr(o, prog.method(base, "normalise_jdd"), "_jdd", REF_NORMALISE, "each entry divided by the total computed before the division loop")
+        nz = prog.method(base, "normalise_jdd")
+        conform_attr(o, nz, "_jdd", REF_NORMALISE, "each entry divided by the total computed before the division loop")
+        # a tolerance shortcut (`if abs(total - 1) < eps: return`, math.isclose) leaves a table that sums to 1 - eps/2 as it is:
+        # the exposed law is then NOT the normalised one (exact tests `total == 1` / `not self._jdd` change nothing and are fine)
+        for iff in [n for n in astx.walk_fn(nz.node) if isinstance(n, ast.If)]:
+            leaves_ = iff.body and isinstance(iff.body[-1], (ast.Return, ast.Continue, ast.Break))
+            tol = [x for x in ast.walk(iff.test) if (isinstance(x, ast.Compare) and len(x.ops) == 1 and isinstance(x.ops[0], (ast.Lt, ast.LtE))
+                                                     and isinstance(x.left, ast.Call) and txt(x.left.func) in ("abs", "math.fabs", "np.abs", "numpy.abs", "np.fabs")
+                                                     and isinstance(astx.const_value(x.comparators[0]), (int, float)) and astx.const_value(x.comparators[0]) > 0)
+                   or (isinstance(x, ast.Call) and txt(x.func).split(".")[-1] in ("isclose", "allclose"))]
+            if leaves_ and tol:
+                o.violated(nz, iff, f"normalise_jdd leaves the table as it is when `{txt(tol[0])[:60]}`: weights whose total is merely CLOSE to 1 are exposed un-normalised "
+                                    "(the loaders promise the normalised product / frequency exactly)", shape_free=True)
         cj = prog.method(mg, "create_jdd")
         ifs = [s for s in cj.body if isinstance(s, ast.If)]
         if len(ifs) == 1:
@@ -294,12 +310,42 @@ def run(ctx):
         ok = False
         for r in rets:
             v = sc.resolve(r.value)
+            if isinstance(v, ast.Call) and v.keywords and all(k.arg in rf.params for k in v.keywords) and txt(v.func) == "JointDegreeFactory.resolve_joint_degree":
+                # arguments passed by name: put them in the factory's parameter order
+                import copy as _copy
+                byname = {k.arg: k.value for k in v.keywords}
+                rest = [p_ for p_ in rf.params[len(v.args):]]
+                if set(rest) == set(byname):
+                    v = ast.Call(func=v.func, args=list(v.args) + [sc.resolve(byname[p_]) for p_ in rest], keywords=[])
             b = match(pat("JointDegreeFactory.resolve_joint_degree(JointDegreeType($p[JointDegreeNames.JOINT_DEGREE_TYPE]), $q)"), v)
             if b is not None and txt(b["p"]) == lf.params[0] == txt(b["q"]):
                 ok = True
                 o.holds(lf, r, "entry point builds the enum from params[JOINT_DEGREE_TYPE] and returns the factory's loader")
         if not ok:
             o.undecided("load_joint_degree does not return the factory's loader for params[JOINT_DEGREE_TYPE]", lf)
+        # between the factory and the hand-over the entry point only (re)builds the table: any other step that rewrites the loader's
+        # table makes "through the entry point" differ from "constructed directly"
+        rn = [txt(r.value) for r in rets if isinstance(r.value, ast.Name)]
+        for ld in set(rn):
+            for c_ in [n for n in astx.walk_fn(lf.node) if isinstance(n, ast.Call) and isinstance(n.func, ast.Attribute) and txt(n.func.value) == ld and n.func.attr != "create_jdd"]:
+                writes = False
+                for cn in ["JointDegree"] + list(LOADERS.values()):
+                    cc = prog.cls(cn)
+                    m_ = prog.method(cc, c_.func.attr) if cc is not None else None
+                    if m_ is not None:
+                        sm_ = AttrState(prog, cc).summary(m_)
+                        if "_jdd" in sm_.kills or "_jdd" in sm_.stores:
+                            writes = True
+                if writes:
+                    o.violated(lf, c_, f"the entry point also runs `{txt(c_)}` on the loader, which rewrites its table: loading through the entry point no longer gives the "
+                                       "distribution that constructing the loader directly gives", shape_free=True)
+                else:
+                    o.undecided(f"the entry point also calls `{txt(c_)[:60]}` on the loader", lf, c_)
+            for st_ in [n for n in astx.walk_fn(lf.node) if isinstance(n, (ast.Assign, ast.AugAssign, ast.AnnAssign))]:
+                for t_ in (st_.targets if isinstance(st_, ast.Assign) else [st_.target]):
+                    if isinstance(t_, (ast.Attribute, ast.Subscript)) and astx.root_name(t_) == ld:
+                        o.violated(lf, st_, f"the entry point writes `{txt(t_)}` on the loader it hands back: loading through the entry point no longer gives the "
+                                            "distribution that constructing the loader directly gives", shape_free=True)
 
     with ctx.obligation("C06.8", "a second create_jdd() never accumulates on a stale table", floor=7) as o:
         for mem, cn in LOADERS.items():
